@@ -22,7 +22,9 @@ import (
 	"sort"
 	"strings"
 	"testing"
+	"time"
 
+	"github.com/influxdata/influxdb/v2/pkg/verifrt/vrt"
 	"verif/h/shardkit"
 	"verif/h/vlib"
 )
@@ -140,6 +142,11 @@ func ModelOf(ops []string) *Model {
 // Options of a history run.
 type Options struct {
 	SeriesTypeCheck bool
+	TSIPartitions   int // 0 = default (8)
+}
+
+func (o Options) kit() shardkit.Options {
+	return shardkit.Options{SeriesTypeCheck: o.SeriesTypeCheck, TSIPartitions: o.TSIPartitions}
 }
 
 // doOp performs op number k on the open fixture and returns "ok", "conflict:<n>" or "err:<text>".
@@ -179,7 +186,7 @@ func doOp(fx *shardkit.Fixture, op string, k int) string {
 // (clean shutdown) or abandons it (crash). onOp, if set, is called before ("begin") and after ("ack") each
 // op — the crash check writes its markers there. fx.Dir differs from dir after a kill-restart op.
 func WriteHistory(dir string, ops []string, o Options, onOp func(k int, phase, op, result string)) (fx *shardkit.Fixture, results []string, err error) {
-	fx, err = shardkit.Open(dir, shardkit.Options{SeriesTypeCheck: o.SeriesTypeCheck})
+	fx, err = shardkit.Open(dir, o.kit())
 	if err != nil {
 		return nil, nil, err
 	}
@@ -208,9 +215,10 @@ var universe = []struct{ m, f string }{{"m", "f"}, {"m", "g"}, {"m2", "f"}, {"m2
 
 // Observe reads the three observations of an open shard.
 type Observation struct {
-	Schema map[string]map[string]string
-	Raw    map[string][]shardkit.Val
-	Cursor map[string][]shardkit.Val
+	Schema    map[string]map[string]string
+	Raw       map[string][]shardkit.Val
+	Cursor    map[string][]shardkit.Val
+	CursorErr []string // "<key>: <error>" of cursor reads that failed (recorded type vs stored blocks)
 }
 
 func Observe(fx *shardkit.Fixture) (ob Observation, err error) {
@@ -224,7 +232,8 @@ func Observe(fx *shardkit.Fixture) (ob Observation, err error) {
 	for _, u := range universe {
 		vs, _, rerr := fx.ReadField(u.m, nil, u.f)
 		if rerr != nil {
-			return ob, rerr
+			ob.CursorErr = append(ob.CursorErr, fmt.Sprintf("%s.%s: %v", u.m, u.f, rerr))
+			continue
 		}
 		if len(vs) > 0 {
 			ob.Cursor[shardkit.CompositeKey(u.m, u.f)] = vs
@@ -234,7 +243,11 @@ func Observe(fx *shardkit.Fixture) (ob Observation, err error) {
 }
 
 func (ob Observation) String() string {
-	return fmt.Sprintf("schema={%s} raw={%s} cursor={%s}", shardkit.SchemaString(ob.Schema, true), shardkit.RawString(ob.Raw), shardkit.RawString(ob.Cursor))
+	s := fmt.Sprintf("schema={%s} raw={%s} cursor={%s}", shardkit.SchemaString(ob.Schema, true), shardkit.RawString(ob.Raw), shardkit.RawString(ob.Cursor))
+	if len(ob.CursorErr) > 0 {
+		s += " cursor-errors=" + fmt.Sprint(ob.CursorErr)
+	}
+	return s
 }
 
 // Compare lists the disagreements of an observation with the model.
@@ -275,6 +288,9 @@ func Compare(ob Observation, m *Model) []Mismatch {
 		}
 	}
 	out = append(out, compareData(ob.Raw, m, "raw")...)
+	for _, e := range ob.CursorErr {
+		out = append(out, Mismatch{"read-error", "reading through the cursor API failed: " + e})
+	}
 	out = append(out, compareData(ob.Cursor, m, "cursor")...)
 	return out
 }
@@ -331,7 +347,7 @@ func compareData(got map[string][]shardkit.Val, m *Model, via string) []Mismatch
 // it returns no mismatch if some model agrees, else the mismatches against allowed[0]. The shard is closed
 // again (clean) before returning; the observation is returned for messages.
 func CheckRecovery(dir string, o Options, allowed []*Model) ([]Mismatch, Observation, error) {
-	fx, err := shardkit.Open(dir, shardkit.Options{SeriesTypeCheck: o.SeriesTypeCheck})
+	fx, err := shardkit.Open(dir, o.kit())
 	if err != nil {
 		return nil, Observation{}, err
 	}
@@ -360,12 +376,16 @@ type Hist struct {
 	Part      string   `json:"part"` // "history"
 	Ops       []string `json:"ops"`
 	TypeCheck bool     `json:"series_type_check,omitempty"`
+	TSIParts  int      `json:"tsi_partitions,omitempty"` // 0 = default (8)
 }
 
 func (h Hist) String() string {
 	s := "[" + strings.Join(h.Ops, " ") + "]"
 	if h.TypeCheck {
 		s += " (series type check on)"
+	}
+	if h.TSIParts == 0 {
+		s += " (8 tsi partitions)"
 	}
 	return s
 }
@@ -383,16 +403,15 @@ func histCtx(ops []string, tc bool) string {
 			drop = true
 		}
 	}
-	r := "none"
+	s := "no-drop"
 	switch {
-	case clean && kill:
-		r = "clean+kill"
-	case clean:
-		r = "clean"
 	case kill:
-		r = "kill"
+		s = "kill-restart-after-drop"
+	case clean:
+		s = "clean-restart-after-drop"
+	case drop:
+		s = "drop-without-restart"
 	}
-	s := fmt.Sprintf("drop-before=%v,restart-after-drop=%s", drop, r)
 	if tc {
 		s += ",series-type-check=on"
 	}
@@ -400,12 +419,26 @@ func histCtx(ops []string, tc bool) string {
 }
 
 type histReport struct {
-	results  []string
-	want     []string
-	viol     []Mismatch // clause already includes context
-	obs      string
-	stateKey string
-	harness  string
+	results   []string
+	want      []string
+	viol      []Mismatch // clause already includes context
+	obs       string
+	stateKey  string
+	harness   string
+	readPanic bool
+}
+
+// closeHung closes the fixture in the background and reports whether that is still blocked after 30 s
+// (teardown only: no verdict depends on it).
+func closeHung(fx *shardkit.Fixture) bool {
+	done := make(chan struct{})
+	go func() { fx.Close(); close(done) }()
+	select {
+	case <-done:
+		return false
+	case <-time.After(30 * time.Second):
+		return true
+	}
 }
 
 func layout(fx *shardkit.Fixture) string {
@@ -444,11 +477,19 @@ func runHist(h Hist) (rep histReport) {
 	for k, op := range h.Ops {
 		rep.want = append(rep.want, model.Apply(op, k))
 	}
-	fx, results, err := WriteHistory(dir, h.Ops, Options{SeriesTypeCheck: h.TypeCheck}, nil)
+	fx, results, err := WriteHistory(dir, h.Ops, Options{SeriesTypeCheck: h.TypeCheck, TSIPartitions: h.TSIParts}, nil)
 	if fx != nil {
-		defer fx.Close()
+		defer func() {
+			// A cursor constructor that panics (see read-panic) leaks its TSM file references and
+			// TSMReader.Close then waits forever: never block the enumeration on the teardown.
+			if closeHung(fx) && rep.harness == "" && !rep.readPanic {
+				rep.harness = "closing the shard after the history did not return within 30s"
+			}
+		}()
 	}
 	rep.results = results
+	// Only the FIRST divergence of a history is reported: everything after it is a consequence (every prefix is
+	// itself an enumerated history, so a divergence of the final state is found at the shortest history showing it).
 	for k, r := range results {
 		if r == rep.want[k] {
 			continue
@@ -465,37 +506,47 @@ func runHist(h Hist) (rep histReport) {
 		} else {
 			rep.viol = append(rep.viol, Mismatch{vlib.JoinSig("op-failed", op, ctx), fmt.Sprintf("op #%d %s returned %q", k, op, r)})
 		}
+		return
 	}
 	if err != nil {
 		// a restart failed: the open error is the verdict (already recorded above)
 		return
 	}
-	ob, oerr := Observe(fx)
+	ctx := histCtx(h.Ops, h.TypeCheck)
+	var ob Observation
+	var oerr error
+	if p, d := vlib.Guard(func() { ob, oerr = Observe(fx) }); p {
+		rep.viol = append(rep.viol, Mismatch{vlib.JoinSig("read-panic", ctx), "reading the shard back after the history panicked: " + d})
+		rep.readPanic = true
+		return
+	}
 	if oerr != nil {
 		rep.harness = "observe: " + oerr.Error()
 		return
 	}
 	rep.obs = ob.String()
-	ctx := histCtx(h.Ops, h.TypeCheck)
 	for _, mm := range Compare(ob, model) {
 		rep.viol = append(rep.viol, Mismatch{vlib.JoinSig(mm.Clause, ctx), mm.Msg})
+		break // first divergence only (schema before data, raw before cursor)
 	}
 	rep.stateKey = shardkit.SchemaString(model.Schema, true) + " | " + layout(fx)
 	return
 }
 
-func sequences(alpha []string, n int, fn func([]string)) {
+// sequences enumerates the cartesian product of per-position alphabets (odometer order).
+func sequences(pos [][]string, fn func([]string)) {
+	n := len(pos)
 	idx := make([]int, n)
 	for {
 		s := make([]string, n)
 		for i, x := range idx {
-			s[i] = alpha[x]
+			s[i] = pos[i][x]
 		}
 		fn(s)
 		i := n - 1
 		for ; i >= 0; i-- {
 			idx[i]++
-			if idx[i] < len(alpha) {
+			if idx[i] < len(pos[i]) {
 				break
 			}
 			idx[i] = 0
@@ -506,13 +557,18 @@ func sequences(alpha []string, n int, fn func([]string)) {
 	}
 }
 
-func onlyCore(s []string) bool {
-	for _, op := range s {
-		ok := false
-		for _, c := range coreAlphabet {
-			ok = ok || c == op
+func in(list []string, x string) bool {
+	for _, y := range list {
+		if x == y {
+			return true
 		}
-		if !ok {
+	}
+	return false
+}
+
+func allIn(list []string, s []string) bool {
+	for _, x := range s {
+		if !in(list, x) {
 			return false
 		}
 	}
@@ -520,33 +576,84 @@ func onlyCore(s []string) bool {
 }
 
 type level struct {
-	alpha     []string
-	depth     int
+	name      string
+	pos       [][]string
 	typeCheck bool
-	skipCore  bool // sequences made only of core ops were already run at this depth
+	skip      func([]string) bool // sequences already run by an earlier level
+	tsiParts  int                 // 0 = default 8 partitions
 }
 
-func runHistories(c *vlib.Ctx, idx *int64) {
-	var levels []level
-	if c.Quick() {
-		levels = []level{{fullAlphabet, 1, false, false}, {fullAlphabet, 2, false, false}, {fullAlphabet, 3, false, false},
-			{coreAlphabet, 4, false, false}}
-	} else {
-		levels = []level{{fullAlphabet, 1, false, false}, {fullAlphabet, 2, false, false}, {fullAlphabet, 3, false, false},
-			{fullAlphabet, 4, false, false}, {coreAlphabet, 5, false, false},
-			{fullAlphabet, 1, true, false}, {fullAlphabet, 2, true, false}, {fullAlphabet, 3, true, false}}
+func rep(alpha []string, n int) [][]string {
+	out := make([][]string, n)
+	for i := range out {
+		out[i] = alpha
 	}
-	for _, lv := range levels {
-		sequences(lv.alpha, lv.depth, func(s []string) {
+	return out
+}
+
+var writesOnly = []string{"WF", "WI", "WS", "WG", "W2"}
+
+func levels(thorough bool) []level {
+	writeFirst := func(alpha []string, n int) [][]string {
+		p := rep(alpha, n)
+		var w []string
+		for _, op := range alpha {
+			if _, ok := writeOps[op]; ok {
+				w = append(w, op)
+			}
+		}
+		p[0] = w
+		return p
+	}
+	ls := []level{
+		{"all-ops/len1/default-tsi-partitions", rep(fullAlphabet, 1), false, nil, 0},
+		{"all-ops/len1", rep(fullAlphabet, 1), false, nil, 1},
+		{"all-ops/len2", rep(fullAlphabet, 2), false, nil, 1},
+		{"all-ops/len3", rep(fullAlphabet, 3), false, nil, 1},
+	}
+	if !thorough {
+		core4 := writeFirst(coreAlphabet, 4)
+		return append(ls,
+			level{"core-ops/len4/write-first", core4, false, nil, 1},
+			// write, {restart|snapshot|drop}, {write|drop}, restart: schema split over fields.idx and fields.idxl
+			level{"write-x-write-restart/len4", [][]string{writesOnly, {opReopen, opKill, opSnapshot, opDrop}, append(append([]string{}, writesOnly...), opDrop), {opReopen, opKill}}, false,
+				func(s []string) bool { return allIn(coreAlphabet, s) }, 1},
+		)
+	}
+	return append(ls,
+		level{"all-ops/len2/default-tsi-partitions", rep(fullAlphabet, 2), false, nil, 0},
+		level{"all-ops/len3/default-tsi-partitions", rep(fullAlphabet, 3), false, nil, 0},
+		level{"all-ops/len1/series-type-check", rep(fullAlphabet, 1), true, nil, 1},
+		level{"all-ops/len2/series-type-check", rep(fullAlphabet, 2), true, nil, 1},
+		level{"all-ops/len3/series-type-check", rep(fullAlphabet, 3), true, nil, 1},
+		level{"all-ops/len4/write-first", writeFirst(fullAlphabet, 4), false, nil, 1},
+		level{"core-ops/len5/write-first", writeFirst(coreAlphabet, 5), false, nil, 1},
+	)
+}
+
+// runHistories runs the levels [from, to) of the tier.
+func runHistories(c *vlib.Ctx, idx *int64, from, to int) {
+	lvs := levels(c.Thorough())
+	if to > len(lvs) {
+		to = len(lvs)
+	}
+	for _, lv := range lvs[from:to] {
+		lv := lv
+		capped := false
+		sequences(lv.pos, func(s []string) {
+			if lv.skip != nil && lv.skip(s) {
+				return
+			}
 			*idx++
-			if !c.Mine(*idx) {
+			if !c.Mine(*idx) || capped {
 				return
 			}
 			if c.Expired() {
-				c.Cap(fmt.Sprintf("budget expired in the histories part (levels are run shortest first; reached depth %d)", lv.depth))
+				c.Cap("budget expired in the histories part during level " + lv.name + " (levels run shortest first)")
+				capped = true
 				return
 			}
-			h := Hist{Part: "history", Ops: s, TypeCheck: lv.typeCheck}
+			h := Hist{Part: "history", Ops: s, TypeCheck: lv.typeCheck, TSIParts: lv.tsiParts}
 			var rep histReport
 			if p, d := vlib.Guard(func() { rep = runHist(h) }); p {
 				c.Eval(1)
@@ -560,6 +667,7 @@ func runHistories(c *vlib.Ctx, idx *int64) {
 			}
 			c.Eval(1)
 			c.Trace(1)
+			c.Extra("histories", 1)
 			c.Transition(int64(len(rep.results)))
 			if rep.stateKey != "" {
 				c.State(rep.stateKey)
@@ -590,6 +698,9 @@ func runHistories(c *vlib.Ctx, idx *int64) {
 				c.Sample(map[string]any{"history": h, "results": rep.results, "final": rep.obs})
 			}
 		})
+		if capped {
+			return
+		}
 	}
 }
 
@@ -612,19 +723,300 @@ func replayHist(raw json.RawMessage) (bool, string) {
 	return len(rep.viol) > 0, fmt.Sprintf("%s results=%v expected=%v %s\n%s", h, rep.results, rep.want, rep.obs, strings.Join(msgs, "\n"))
 }
 
+// ---------- schedules part (vsched) ----------
+
+// Scenario: after the init ops, every thread performs one write op concurrently.
+type Scenario struct {
+	Name      string   `json:"name"`
+	Init      []string `json:"init"`
+	Threads   []string `json:"threads"` // write ops, one per thread
+	TypeCheck bool     `json:"series_type_check,omitempty"`
+	Bound     int      `json:"-"` // preemption bound of the exploration (not part of a case)
+}
+
+// SchedCase is a replayable schedule.
+type SchedCase struct {
+	Part     string   `json:"part"` // "schedule"
+	Scenario Scenario `json:"scenario"`
+	Choices  []int    `json:"schedule"`
+	Trace    []string `json:"trace,omitempty"`
+}
+
+func scenarios(thorough bool) []Scenario {
+	if !thorough {
+		return []Scenario{
+			{Name: "new-measurement/float-vs-integer", Threads: []string{"WF", "WI"}, Bound: 2},
+			{Name: "new-measurement/float-vs-float", Threads: []string{"WF", "WF"}, Bound: 1},
+			{Name: "existing-measurement/float-vs-integer", Init: []string{"WG"}, Threads: []string{"WF", "WI"}, Bound: 1},
+		}
+	}
+	return []Scenario{
+		{Name: "new-measurement/float-vs-integer", Threads: []string{"WF", "WI"}, Bound: 3},
+		{Name: "new-measurement/float-vs-float", Threads: []string{"WF", "WF"}, Bound: 3},
+		{Name: "existing-measurement/float-vs-integer", Init: []string{"WG"}, Threads: []string{"WF", "WI"}, Bound: 2},
+		{Name: "dropped-measurement/float-vs-integer", Init: []string{"WS", "DM"}, Threads: []string{"WF", "WI"}, Bound: 2},
+		{Name: "new-measurement/float-vs-integer/series-type-check", Threads: []string{"WF", "WI"}, TypeCheck: true, Bound: 2},
+		{Name: "new-measurement/float-vs-integer-vs-string", Threads: []string{"WF", "WI", "WS"}, Bound: 2},
+	}
+}
+
+// schedFilter keeps the scheduling points of the write path that matter for field creation: the shard and
+// field-set locks, the change-log writer, the engine write and the cache entry creation. Everything else
+// (metrics, ring partitions' internals, ...) is passed through silently by the baton holder.
+func schedFilter(kind vrt.OpKind, label string) bool {
+	for _, p := range []string{"tsdb.(*Shard).", "tsdb.(*MeasurementFieldSet).", "tsdb.(*measurementFieldSetChangeMgr).",
+		"tsm1.(*Engine).WritePoints", "tsm1.(*Cache).WriteMulti:RLock", "tsm1.(*partition).write:Lock"} {
+		if strings.HasPrefix(label, p) {
+			return true
+		}
+	}
+	return false
+}
+
+type schedObs struct {
+	results []string
+	obs     Observation
+	obsErr  string
+	harness string
+}
+
+func schedHarness(sc Scenario, out *schedObs) *vrt.Harness {
+	return &vrt.Harness{Name: sc.Name, Filter: schedFilter, Body: func(x *vrt.Exec) {
+		*out = schedObs{}
+		dir := vlib.Scratch("c10s-")
+		defer os.RemoveAll(dir)
+		fx, _, err := WriteHistory(dir, sc.Init, Options{SeriesTypeCheck: sc.TypeCheck, TSIPartitions: 1}, nil)
+		if err != nil {
+			out.harness = "init: " + err.Error()
+			if fx != nil {
+				fx.Close()
+			}
+			return
+		}
+		res := make([]string, len(sc.Threads))
+		for i, op := range sc.Threads {
+			i, op := i, op
+			x.Go(fmt.Sprintf("T%d:%s", i, op), func() {
+				res[i] = doOp(fx, op, len(sc.Init)+i)
+			})
+		}
+		x.Run()
+		x.S.Drain()
+		out.results = res
+		if !x.S.Deadlock && !x.S.StepCap {
+			if p, d := vlib.Guard(func() {
+				ob, oerr := Observe(fx)
+				out.obs = ob
+				if oerr != nil {
+					out.obsErr = oerr.Error()
+				}
+			}); p {
+				out.obsErr = d
+			}
+		}
+		if cerr := fx.Close(); cerr != nil && out.harness == "" {
+			out.harness = "close: " + cerr.Error()
+		}
+	}}
+}
+
+// judgeSched: the results and the final state must equal those of SOME sequential order of the threads.
+func judgeSched(sc Scenario, so *schedObs) (ok bool, clause, why, winner string) {
+	n := len(sc.Threads)
+	perm := make([]int, n)
+	for i := range perm {
+		perm[i] = i
+	}
+	best := ""
+	bestClause := ""
+	var rec func(k int) bool
+	try := func() bool {
+		m := NewModel()
+		for k, op := range sc.Init {
+			m.Apply(op, k)
+		}
+		want := make([]string, n)
+		for _, ti := range perm {
+			want[ti] = m.Apply(sc.Threads[ti], len(sc.Init)+ti)
+		}
+		for i := range want {
+			if want[i] != so.results[i] {
+				if best == "" {
+					got := resultKind(so.results[i])
+					if got == "conflict" && resultKind(want[i]) == "conflict" {
+						got = "conflict-wrong-count"
+					}
+					bestClause = "write-result/want=" + resultKind(want[i]) + "/got=" + got
+					best = fmt.Sprintf("thread %d (%s) returned %q; in the order %v it must return %q", i, sc.Threads[i], so.results[i], perm, want[i])
+				}
+				return false
+			}
+		}
+		if so.obsErr != "" {
+			bestClause, best = "read-failed", "reading the shard back failed: "+so.obsErr
+			return false
+		}
+		if mm := Compare(so.obs, m); len(mm) > 0 {
+			bestClause, best = mm[0].Clause, mm[0].Msg+fmt.Sprintf(" (results match the order %v)", perm)
+			return false
+		}
+		winner = sc.Threads[perm[0]]
+		return true
+	}
+	rec = func(k int) bool {
+		if k == n {
+			return try()
+		}
+		for i := k; i < n; i++ {
+			perm[k], perm[i] = perm[i], perm[k]
+			if rec(k + 1) {
+				return true
+			}
+			perm[k], perm[i] = perm[i], perm[k]
+		}
+		return false
+	}
+	if rec(0) {
+		return true, "", "", winner
+	}
+	return false, bestClause, best, ""
+}
+
+func schedSig(sc Scenario, clause string) string {
+	kinds := append([]string(nil), sc.Threads...)
+	sort.Strings(kinds)
+	init := "fresh"
+	if len(sc.Init) > 0 {
+		init = strings.Join(sc.Init, "+")
+	}
+	s := vlib.JoinSig("schedule", clause, strings.Join(kinds, "||"), "init="+init)
+	if sc.TypeCheck {
+		s += "/series-type-check=on"
+	}
+	return s
+}
+
+func runSchedules(t *testing.T, c *vlib.Ctx) {
+	for _, sc := range scenarios(c.Thorough()) {
+		if c.Expired() {
+			c.Cap("budget expired before schedule scenario " + sc.Name)
+			break
+		}
+		sc := sc
+		var so schedObs
+		h := schedHarness(sc, &so)
+		st := vrt.Explore(t, h, sc.Bound, c.Shard, c.NShards, c.Expired, func(r *vrt.Result) {
+			c.Eval(1)
+			if r.Preempts > 0 {
+				c.NontrivialN(1)
+			}
+			if r.Diverged != "" {
+				c.HarnessError("schedule " + sc.Name + ": " + r.Diverged)
+				return
+			}
+			if so.harness != "" {
+				c.HarnessError("schedule " + sc.Name + ": " + so.harness)
+				return
+			}
+			cs := SchedCase{Part: "schedule", Scenario: sc, Choices: r.Choices}
+			if r.StepCap {
+				c.Cap("schedule " + sc.Name + ": step cap")
+				return
+			}
+			if r.Deadlock {
+				c.Outcome("schedule:deadlock")
+				c.Violation(schedSig(sc, "deadlock"), sc.Name+": deadlock: "+strings.Join(r.Blocked, "; "), cs)
+				return
+			}
+			ok, clause, why, winner := judgeSched(sc, &so)
+			if ok {
+				c.Outcome(fmt.Sprintf("schedule:%s:first=%s:%s", sc.Name, winner, strings.Join(kindsOf(so.results), ",")))
+			} else {
+				c.Outcome("schedule:violation:" + clause)
+				for _, s := range r.Steps {
+					cs.Trace = append(cs.Trace, fmt.Sprintf("T%d %s", s.Thread, s.Label))
+				}
+				c.Violation(schedSig(sc, clause), fmt.Sprintf("%s: %s | results=%v %s", sc.Name, why, so.results, so.obs), cs)
+			}
+			if c.WantSample() && r.Preempts == sc.Bound {
+				c.Sample(map[string]any{"scenario": sc.Name, "schedule": r.Choices, "preemptions": r.Preempts, "results": so.results})
+			}
+		})
+		c.StateN(st.Nodes)
+		c.Transition(st.Transitions)
+		c.Trace(st.Executions)
+		c.Extra("schedule_executions", st.Executions)
+		if c.Shard == 0 {
+			c.Note("schedule_bound_"+sc.Name, fmt.Sprint(sc.Bound))
+		}
+		if !st.Complete {
+			c.Cap("budget expired in the schedules part during scenario " + sc.Name)
+			break
+		}
+	}
+}
+
+func kindsOf(rs []string) []string {
+	out := make([]string, len(rs))
+	for i, r := range rs {
+		out[i] = resultKind(r)
+	}
+	return out
+}
+
+func replaySched(t *testing.T, raw json.RawMessage) (bool, string) {
+	var cs SchedCase
+	if err := json.Unmarshal(raw, &cs); err != nil {
+		return false, err.Error()
+	}
+	var so schedObs
+	r := vrt.RunOnce(t, schedHarness(cs.Scenario, &so), cs.Choices)
+	if os.Getenv("C10_TRACE") != "" {
+		for i, st := range r.Steps {
+			fmt.Fprintf(os.Stderr, "step %d: T%d %s enabled=%v\n", i, st.Thread, st.Label, st.Enabled)
+		}
+		fmt.Fprintf(os.Stderr, "threads=%v deadlock=%v blocked=%v\n", r.Names, r.Deadlock, r.Blocked)
+	}
+	if r.Diverged != "" {
+		return false, "diverged: " + r.Diverged
+	}
+	if so.harness != "" {
+		return false, "harness: " + so.harness
+	}
+	if r.Deadlock {
+		return true, "deadlock: " + strings.Join(r.Blocked, "; ")
+	}
+	ok, clause, why, _ := judgeSched(cs.Scenario, &so)
+	return !ok, fmt.Sprintf("%s schedule=%v results=%v %s\n%s: %s", cs.Scenario.Name, cs.Choices, so.results, so.obs, clause, why)
+}
+
 func TestCheck(t *testing.T) {
 	vlib.Main(t, &vlib.Check{
 		ID: "C10", Level: "model_checking",
-		Rule: "PART 1 histories: every sequence of ops over {WF/WI/WS: write 2 points of m.f as float/integer/string, WG: m.g float, W2: m2.f integer, DM: DeleteMeasurement(m), SN: cache snapshot to TSM, RO: clean close+reopen, KR: kill-restart (copy of the live directory opened with the real open path)} of length ≤3 plus length 4 over {WF,WI,DM,SN,RO,KR} [thorough: length ≤4 over all 9 ops, length 5 over the 6 core ops, and length ≤3 again with INFLUXDB_SERIES_TYPE_CHECK_ENABLED], each on a fresh real tsdb.Shard; after every op the returned error / PartialWriteError.Dropped and at the end the recorded field types (MeasurementFieldSet), a raw dump of all stored values and cursor reads are compared with a reference model; states = distinct (model schema, on-disk layout: fields.idx / fields.idxl present, #TSM, #tombstone files, #cache keys), transitions = ops executed, traces = histories. non-trivial = histories with a conflicting write or a restart after a drop (distinct by construction).",
+		Rule: "PART 1 histories (opseq): op alphabet {WF/WI/WS: write 2 points of m.f as float/integer/string, WG: m.g float, W2: m2.f integer, DM: DeleteMeasurement(m), SN: cache snapshot to TSM, RO: clean close+reopen, KR: kill-restart = copy of the live directory opened with the real open path}; quick: every sequence of length ≤3 over all 9 ops, every length-4 sequence over {WF,WI,DM,SN,RO,KR} starting with a write, every length-4 sequence write·{RO,KR,SN,DM}·{write,DM}·{RO,KR}; thorough: additionally length ≤3 with the default 8 tsi1 partitions and with INFLUXDB_SERIES_TYPE_CHECK_ENABLED, every length-4 sequence over all 9 ops starting with a write, every length-5 sequence over the 6 core ops starting with a write. Each history runs on a fresh real tsdb.Shard (tsm1 + tsi1 + series file + WAL; 1 tsi1 partition unless stated); every op result (error / PartialWriteError.Dropped) and the final recorded field types (MeasurementFieldSet), raw dump of all stored values and cursor reads are compared with a reference model; only the first divergence of a history is reported (all prefixes are enumerated). PART 2 schedules (vsched): 2 (thorough: one scenario with 3) real goroutines call Shard.WritePoints creating the same new field with different / equal types, from a fresh shard / a measurement that exists with another field [thorough: / a dropped measurement / series type check on]; every schedule with ≤ B preemptions (quick B=2 for float-vs-integer on a new measurement, 1 otherwise; thorough B=3 / 2) at the sync points of tsdb/shard.go, tsm1/engine.go, tsm1/cache.go, tsm1/ring.go kept by the filter (Shard.mu, MeasurementFieldSet.mu, change-log writer mutex, Engine.mu in WritePoints, Cache.mu in WriteMulti, ring partition lock); results + final schema/raw/cursor state must equal those of some sequential order of the writes. states = distinct (model schema, on-disk layout) of histories + decision nodes of the schedule trees; transitions = ops executed + scheduling steps; traces = histories + schedule executions. non-trivial = histories with a conflicting write or a restart after a drop; schedules with ≥1 preemption (distinct by construction)",
 		Assumptions: []string{
-			"a kill-restart image is the directory tree as the page cache holds it while the process is alive and idle (every completed write(2) present); torn / unsynced images are the crash part's job",
+			"a kill-restart image is the directory tree as the page cache holds it while the process is alive and idle (every completed write(2) present); torn / unsynced images belong to the crash part (crashfs)",
 			"background compactions and the automatic cache snapshotter are off; snapshots are taken by the SN op",
 			"dropping a measurement that does not exist is a successful no-op",
+			"deep levels use INFLUXDB_EXP_TSI_PARTITIONS=1-equivalent (tsi1.DefaultPartitionN=1): the field schema does not depend on the index partitioning (length ≤1 quick / ≤3 thorough is repeated with the default 8)",
+			"schedules: sequentially consistent interleavings at lock/atomic granularity; sync.Map operations (gensyncmap LoadOrStore) are atomic steps without a scheduling point of their own",
 		},
-		QuickBudgetS: 60, ThoroughBudgetS: 800,
+		QuickBudgetS: 60, ThoroughBudgetS: 800, WorkerEnv: []string{"GOMAXPROCS=1"},
 		Run: func(c *vlib.Ctx) {
+			// order: short histories (length ≤ 3), then the schedules, then the deeper history levels, so that
+			// a capped run still covers both quantifiers
+			const shallow = 4 // number of leading levels of length ≤ 3 (same in both tiers)
 			var idx int64
-			runHistories(c, &idx)
+			part := os.Getenv("C10_PART")
+			if part != "schedules" {
+				runHistories(c, &idx, 0, shallow)
+			}
+			if part != "histories" {
+				runSchedules(t, c)
+			}
+			if part != "schedules" {
+				runHistories(c, &idx, shallow, 1<<30)
+			}
 		},
 		Replay: func(c *vlib.Ctx, raw json.RawMessage) (bool, string) {
 			var probe struct {
@@ -634,6 +1026,8 @@ func TestCheck(t *testing.T) {
 			switch probe.Part {
 			case "history":
 				return replayHist(raw)
+			case "schedule":
+				return replaySched(t, raw)
 			}
 			return false, "unknown case part " + probe.Part
 		},
